@@ -357,6 +357,18 @@ fn run(ctx: &mut Ctx) {
         g_float().prop_map(MV::F),
         check_value,
     );
+    // integral doubles of at most 15 significant digits between 2^53/10 and
+    // 10^16: printed as digits and ".0", 16-17 digits in all
+    ctx.run_prop(
+        "floats-integral-15-digits",
+        tier.pick(20_000, 500_000),
+        prop_oneof![
+            (90_071_992_547_409u64..1_000_000_000_000_000u64).prop_map(|m| MV::f(m as f64)),
+            (100_000_000_000_000u64..1_000_000_000_000_000u64).prop_map(|m| MV::f((m * 10) as f64)),
+            (1u64..1_000_000_000u64, 6u32..8).prop_map(|(m, k)| MV::f((m * 10u64.pow(k)) as f64)),
+        ],
+        check_value,
+    );
     ctx.run_prop(
         "ints",
         tier.pick(5_000, 200_000),
